@@ -48,9 +48,9 @@ type FuncUnit struct {
 
 type Model struct {
 	kindConsts map[int64]ast.Expr
-	L    *Loaded
-	Info *types.Info
-	Pkg  *types.Package
+	L          *Loaded
+	Info       *types.Info
+	Pkg        *types.Package
 
 	NodeRef   *types.Named
 	KindType  *types.Named
